@@ -199,7 +199,8 @@ pub fn run_case(srv: &Server, case: &Case) -> Outcome {
     // executed once each, in order: same final state as the reference run
     // (the HTTP worker finishes its bookkeeping after it has answered: wait for the connection count to settle)
     let mut conn = String::new();
-    for _ in 0..400 {
+    // (up to 30 s: slowness under load is not a finding)
+    for _ in 0..15_000 {
         conn = srv.node.dump().get(&db_http).and_then(|m| m.get("$connections")).map(|v| v.0.clone()).unwrap_or_else(|| "0".to_string());
         if conn == "0" {
             break;
@@ -259,7 +260,8 @@ pub fn run_ws_case(srv: &Server, ws_port: u16, case: &Case) -> Outcome {
     }
     let mut ok = false;
     let (mut dh, mut dt) = (db_dump(&srv.node, &db_ws), db_dump(&srv.node, &db_twin));
-    for _ in 0..200 {
+    // (up to 20 s: the WebSocket server works on its own thread, slowness under load is not a finding)
+    for _ in 0..4000 {
         dh = db_dump(&srv.node, &db_ws);
         dt = db_dump(&srv.node, &db_twin);
         let conn = srv.node.dump().get(&db_ws).and_then(|m| m.get("$connections")).map(|v| v.0.clone()).unwrap_or_else(|| "0".to_string());
